@@ -327,6 +327,10 @@ def validate_vector_data(data: list[Any], shape: tuple[int, ...], num_fields: in
     if len(data) != shape[0]:
         raise ValueError(f"Expected {shape[0]} items in data, got {len(data)}")
 
+    # One nesting level per fixed dimension; the cells are at the innermost level
+    if len(shape) > 1:
+        return [validate_vector_data(sub, shape[1:], num_fields) for sub in data]
+
     validated_data = []
 
     for idx, item in enumerate(data):
